@@ -278,13 +278,13 @@ EXTRA = _RTR + [
     ('slurmDropAllKinds', SLURM, r'impl ValidationOutputFilters \{[\s\S]*?pub fn drop_payload\(&self, payload: &rtr::Payload\) -> bool \{([\s\S]*?)\n    \}', _drop_all, ['C15']),
     ('aspaMaxCount', PDU, r'impl ProviderAsns \{[\s\S]*?pub const MAX_COUNT: usize = (\d+);', 'nat', ['C15', 'C07', 'C06']),
     # ---- C17
-    ('utcPivot', X509, r'Tag::UTC_TIME => \{[\s\S]*?let year = if year >= (\d+) \{ year \+ 1900 \}\s*else \{ year \+ 2000 \};', 'nat', ['C17']),
+    ('utcPivot', X509, r'Tag::UTC_TIME => \{[\s\S]*?let year = if year >= (\d+) \{ year \+ 1900 \}\s*else \{ year \+ 2000 \};', 'nat', ['C17', 'C01', 'C04']),
     ('utcPivotOpt', X509, r'take_opt_primitive_if\(Tag::UTC_TIME, \|prim\| \{[\s\S]*?let year = if year >= (\d+) \{ year \+ 1900 \}\s*else \{ year \+ 2000 \};', 'nat', ['C17']),
     ('utcYearMin', X509, r'pub fn encode_varied\(self\) -> impl encode::Values \{\s*if self\.year\(\) < (\d+) \|\| self\.year\(\) > \d+ \{', 'nat', ['C17']),
     ('utcYearMax', X509, r'pub fn encode_varied\(self\) -> impl encode::Values \{\s*if self\.year\(\) < \d+ \|\| self\.year\(\) > (\d+) \{', 'nat', ['C17']),
-    ('timeDigitsOnly', X509, r'(fn read_two_char<[\s\S]*?)//------------ AsUtcTime', _digits_only, ['C17']),
+    ('timeDigitsOnly', X509, r'(fn read_two_char<[\s\S]*?)//------------ AsUtcTime', _digits_only, ['C17', 'C01', 'C04']),
     # ---- C12
-    ('uriAsciiRanges', URI, r'fn is_u8_uri_ascii\(ch: u8\) -> bool \{\s*matches!\(\s*ch,\s*([^)]*?)\s*\)', _ascii_ranges, ['C12', 'C14']),
+    ('uriAsciiRanges', URI, r'fn is_u8_uri_ascii\(ch: u8\) -> bool \{\s*matches!\(\s*ch,\s*([^)]*?)\s*\)', _ascii_ranges, ['C12', 'C14', 'C01', 'C04']),
     ('rsyncModuleCaseInsensitive', URI, r'fn eq_module\(&self, other: &Rsync\) -> bool \{([\s\S]*?)\n    \}', _eq_module, ['C12']),
     ('httpsJoinSlashWhenEmpty', URI, r'impl Https \{[\s\S]*?pub fn join\(&self, path: &\[u8\]\) -> Result<Self, Error> \{([\s\S]*?)\n    \}', _https_join, ['C12']),
     # ---- C13
